@@ -11,36 +11,52 @@
 (*                        (1/0, 2 = panicked), C[(i-1)*n+j] = sign of      *)
 (*                        vals[i].CompareTo(vals[j]) (2 = panicked);       *)
 (*                        dec[i] = index of the decoded copy of member i   *)
-(*                        (0: none)                                        *)
-(*   End n                n pools were judged in this history              *)
+(*                        (0: none); optional twin[i] = index of the member*)
+(*                        built afresh from the observed content of i      *)
+(*   Mutate ops           public mutators were called on members of the    *)
+(*                        pool just judged: ops[k] = [i, op, arg]; the     *)
+(*                        next Pool is the judgement of the same objects   *)
+(*                        (their decoded copies and twins made anew)       *)
+(*   End n m              n pools were judged, m rounds of mutators ran    *)
 (* TLC evaluates every law over all pairs and triples of the pool.         *)
 (***************************************************************************)
 EXTENDS ValueLaws, TraceLib
 
-VARIABLES l, judged
-tvars == <<lvars, l, judged>>
+VARIABLES l, judged, rounds
+tvars == <<lvars, l, judged, rounds>>
 
-TraceInit == LInit /\ l = 1 /\ judged = 0 /\ HwmInit
+TraceInit == LInit /\ l = 1 /\ judged = 0 /\ rounds = 0 /\ HwmInit
 
 Step(e) == IsEv(l, e) /\ l' = l + 1
 
 \* a row-major n*n tuple as a tuple of rows
 Square(flat, n) == [i \in 1..n |-> SubSeq(flat, (i - 1) * n + 1, i * n)] \o <<>>
 
-TraceReset == Step("Reset") /\ pool' = EmptyPool /\ focus' = {} /\ judged' = 0
+TraceReset == Step("Reset") /\ pool' = EmptyPool /\ focus' = {} /\ prev' = EmptyPool /\ cont' = FALSE /\ muts' = {}
+              /\ judged' = 0 /\ rounds' = 0
 
 TracePool == /\ Step("Pool")
              /\ LET e == Trace[l] IN
                   /\ \A i \in 1..Len(e.vals) : IsValue(e.vals[i])
                   /\ Len(e.E) = Len(e.vals) * Len(e.vals) /\ Len(e.C) = Len(e.E)
-                  /\ \E p \in {MkPool(e.vals, Square(e.E, Len(e.vals)), Square(e.C, Len(e.vals)), e.dec)} : Judge(p, Members(p))
-             /\ judged' = judged + 1
+                  /\ Len(e.dec) = Len(e.vals) /\ (Has(e, "twin") => Len(e.twin) = Len(e.vals))
+                  /\ \E p \in {MkPoolT(e.vals, Square(e.E, Len(e.vals)), Square(e.C, Len(e.vals)), e.dec,
+                                       IF Has(e, "twin") THEN e.twin ELSE [i \in 1..Len(e.vals) |-> 0])} : Judge(p, Members(p))
+             /\ judged' = judged + 1 /\ UNCHANGED rounds
 
-TraceEnd == Step("End") /\ Trace[l].n = judged /\ UNCHANGED <<lvars, judged>>
+TraceMutate == /\ Step("Mutate")
+               /\ LET e == Trace[l] IN
+                    /\ \A k \in 1..Len(e.ops) : Has(e.ops[k], "i") /\ Has(e.ops[k], "op")
+                    /\ Mutate(e.ops)
+               /\ rounds' = rounds + 1 /\ UNCHANGED judged
 
-InvAll == PTotal /\ PRefl /\ PSym /\ PTransE /\ PDecodeEqual /\ PAntisym /\ PTransC /\ PScalarConsistent /\ PTypeOrder
+\* a history does not end between a round of mutators and the judgement of its outcome
+TraceEnd == Step("End") /\ Trace[l].n = judged /\ (Has(Trace[l], "m") => Trace[l].m = rounds) /\ ~cont
+            /\ UNCHANGED <<lvars, judged, rounds>>
 
-TraceNext == (TraceReset \/ TracePool \/ TraceEnd) /\ InvAll'
+InvAll == PTotal /\ PRefl /\ PSym /\ PTransE /\ PDecodeEqual /\ PAntisym /\ PTransC /\ PScalarConsistent /\ PTypeOrder /\ PFresh /\ PStable
+
+TraceNext == (TraceReset \/ TracePool \/ TraceMutate \/ TraceEnd) /\ InvAll'
 TraceSpec == TraceInit /\ [][TraceNext]_tvars
 
 Hwm == HwmNote(l)
